@@ -66,11 +66,11 @@ theorem E2E_single_edit (k : Nat) (s : Mask) (v : Nat) (w : List Char) (e : Edit
     obtain ⟨b, st, hb, hr, hd⟩ := C09_clean (inducedAccessor k s) (e.apply w) v k none true heap hc
     have hbt : b = true := Compose.vtMatches_none_eq hb
     subst hbt
-    exact ⟨[e.apply w], st, hr, fun h => by cases h, fun _ => ⟨hd, rfl⟩⟩
+    exact ⟨[e.apply w], st, hr, fun h => (by cases h), fun _ => ⟨hd, rfl⟩⟩
   | false =>
     obtain ⟨cands, st, hr, hd, hmem⟩ :=
       C08_single k s v w e none heap hk hs hv hw he hp (Or.inl rfl) hheap hc
-    exact ⟨cands, st, hr, fun _ => ⟨hd, hmem⟩, fun h => by cases h⟩
+    exact ⟨cands, st, hr, fun _ => ⟨hd, hmem⟩, fun h => (by cases h)⟩
 
 /-- write, corrupt once, repair with the check, decode: the original message is recovered from
 some returned candidate — and every returned candidate reproduces the check (C09_check). -/
